@@ -92,7 +92,7 @@ def generic_check(ctx, mod):
         cm.violation(ctx, "axioms", {"what": "theorems depend on axioms outside the declared trusted base",
                                      "axioms": bad_axioms}, no_failing_input=True)
     if hasattr(mod, "extra"):
-        mod.extra(ctx, obl)
+        mod.extra(ctx, obl, cases, obs)
     kinds = collections.Counter(c["meta"].get("kind", "?") for c in cases)
     status = collections.Counter(obs[c["id"]]["status"] for c in cases)
     distinct = {hashlib.sha1(json.dumps(c["go"], sort_keys=True).encode()).hexdigest()
